@@ -351,6 +351,142 @@ def rule_markerstate(ctx):
             ctx.ok(rid, "armed-in-replay:" + fld, "set only in process_next", nontrivial=True, fn=f)
 
 
+def rule_layout(ctx):
+    """the decompressed data section is carved in the order the format defines: APP data, COM data, inter-marker data, tail"""
+    from ..symexpr import Sym, show
+    rid = "R-JBR-LAYOUT"
+    ctx.rule(rid, "JpegBitstreamReconstructor::new carves the decompressed jbrd data into app_data | com_data | intermarker_data | tail_data "
+                  "in this order: each region starts where the previous one ends and has the length the header gives for it "
+                  "(app_data_len, com_data_len, intermarker_data_len). Slices are followed symbolically through range indexing and "
+                  "split_at, offsets in the normal form of symexpr; how the carving is written does not matter")
+    jbr = ctx.prog.crate("jxl_jbr")
+    cons = None
+    for f in jbr.fn_list:
+        for b, blk in enumerate(f.blocks):
+            if blk[2]:
+                continue
+            for st in blk[0]:
+                if st[0] == "=" and st[2][0] == "agg" and st[2][1][0] == "adt" and st[2][1][1] == RECON_ADT:
+                    cons = (f, st)
+    adt = jbr.adts.get(RECON_ADT)
+    if cons is None or adt is None:
+        ctx.anchor_missing(rid, RECON_ADT + " construction")
+        return
+    f, st = cons
+    ctx.seen(f)
+    sym = Sym(f)
+    defs = sym.defs
+    names = [x[0] for x in adt["variants"][0]["fields"]]
+
+    def terms(o):
+        alts = sym.operand(o)
+        if len(alts) != 1:
+            return None
+        e = next(iter(alts))
+        if e == "0":
+            return ()
+        if isinstance(e, tuple) and e[0] == "+":
+            return tuple(sorted(show(x) for x in e[1]))
+        return (show(e),)
+
+    def add(a, b):
+        if a is None or b is None:
+            return None
+        if a == "END" or b == "END":
+            return None
+        return tuple(sorted(a + b))
+
+    memo = {}
+
+    def slice_of(l, field=None, depth=0):
+        """(start terms, end terms | 'END') of the byte slice held by local l (or by field `field` of the tuple l), relative to `data`"""
+        key = (l, field)
+        if key in memo:
+            return memo[key]
+        memo[key] = None
+        res = None
+        if depth > 24:
+            return None
+        if 1 <= l <= f.argc and field is None:
+            res = ((), "END") if f.local_name(l) == "data" or f.local_ty(l) in ("&[u8]", "&'jbrd [u8]") else None
+            # several &[u8] parameters exist (icc, exif, xmp): only the one named `data` / first raw slice is the data section
+            if f.local_name(l) not in (None, "data"):
+                res = None
+        else:
+            for d in defs.of(l):
+                if f.is_cleanup(d[0]):
+                    continue
+                if d[2] == "assign":
+                    rv = d[3][2]
+                    if rv[0] in ("use", "cast"):
+                        pl = op_place(rv[1] if rv[0] == "use" else rv[2])
+                        if pl is None:
+                            continue
+                        fl = [e for e in pl[1:] if isinstance(e, list) and e[0] == "."]
+                        res = slice_of(pl[0], fl[-1][1] if fl else field, depth + 1)
+                    elif rv[0] == "ref":
+                        res = slice_of(rv[2][0], field, depth + 1)
+                elif d[2] == "call":
+                    t = d[3]
+                    c = callee(t)
+                    nm = c["fn"] if c else ""
+                    sh = nm.split("::<")[0]
+                    if nm.split("::")[-1].startswith("split_at") and len(t[2]) == 2:
+                        base = slice_of(op_local(t[2][0]), None, depth + 1)
+                        n = terms(t[2][1])
+                        if base and n is not None:
+                            mid = add(base[0], n)
+                            res = (base[0], mid) if field == 0 else ((mid, base[1]) if field == 1 else None)
+                    elif sh.endswith("ops::index::Index::index") and len(t[2]) == 2:
+                        base = slice_of(op_local(t[2][0]), None, depth + 1)
+                        rl = op_local(t[2][1])
+                        rd = defs.single(rl) if rl is not None else None
+                        if base and rd and rd[2] == "assign" and rd[3][2][0] == "agg":
+                            kind = rd[3][2][1][1]
+                            ops = rd[3][2][2]
+                            if kind.endswith("RangeTo"):
+                                res = (base[0], add(base[0], terms(ops[0])))
+                            elif kind.endswith("RangeFrom"):
+                                res = (add(base[0], terms(ops[0])), base[1])
+                            elif kind.endswith("Range"):
+                                res = (add(base[0], terms(ops[0])), add(base[0], terms(ops[1])))
+                    elif nm.split("::")[-1] in ("deref", "as_ref", "as_slice", "borrow", "get_ref") and t[2]:
+                        res = slice_of(op_local(t[2][0]), field, depth + 1)
+                if res is not None:
+                    break
+        memo[key] = res
+        return res
+
+    got = {}
+    for fld in ("app_data", "com_data", "intermarker_data", "tail_data"):
+        if fld not in names:
+            ctx.anchor_missing(rid, "field " + fld)
+            return
+        o = st[2][2][names.index(fld)]
+        l = op_local(o)
+        got[fld] = slice_of(l) if l is not None else None
+    A, C, I = "ret:app_data_len", "ret:com_data_len", "ret:intermarker_data_len"
+    want = {
+        "app_data": ((), (A,)),
+        "com_data": ((A,), tuple(sorted((A, C)))),
+        "intermarker_data": (tuple(sorted((A, C))), tuple(sorted((A, C, I)))),
+        "tail_data": (tuple(sorted((A, C, I))), "END"),
+    }
+    if any(v is None or v[0] is None or v[1] is None for v in got.values()):
+        unk = [k for k, v in got.items() if v is None or v[0] is None or v[1] is None]
+        ctx.bad(rid, "layout-not-evaluable", "cannot follow how %s are carved out of the data section (slicing idiom not understood)" % unk, fn=f, pos=st[3])
+        return
+    wrong = {k: (got[k], want[k]) for k in want if got[k] != want[k]}
+    if wrong:
+        k = sorted(wrong)[0]
+        fmt = lambda r: "[%s .. %s)" % (" + ".join(x.replace("ret:", "") for x in r[0]) or "0", r[1] if r[1] == "END" else " + ".join(x.replace("ret:", "") for x in r[1]))
+        ctx.bad(rid, "layout-differs", "the data section is not carved in the order APP | COM | inter-marker | tail: %s is taken from %s, the "
+                "format puts it at %s (%d of 4 regions differ): segments are reconstructed with each other's bytes"
+                % (k, fmt(wrong[k][0]), fmt(wrong[k][1]), len(wrong)), fn=f, pos=st[3])
+    else:
+        ctx.ok(rid, "layout", "app [0..A) | com [A..A+C) | intermarker [A+C..A+C+I) | tail [A+C+I..)", nontrivial=True, fn=f)
+
+
 def rule_state(ctx):
     """Jbrd box state machine: finalize of an uninitialised box is an error; data() is Some only when initialised"""
     rid = "R-JBR-STATE"
@@ -404,6 +540,7 @@ def main(pid, tier, repo=None):
         rule_status(ctx)
         rule_state(ctx)
         rule_markerstate(ctx)
+        rule_layout(ctx)
         fieldrange.run(ctx, LIB_CRATES, only_crates=("jxl_jbr", "jxl_oxide"))
     specconst.run(ctx, pid)
     ctx.not_decided("byte equality of the reconstructed JPEG with the original (Huffman re-encoding, marker replay, integer chroma-from-luma, "
